@@ -919,6 +919,8 @@ def run(ctx):
     for tid, idx, clause in fails:
         by_case.setdefault((tid, clause), []).append(idx)
     for (tid, clause), idxs in sorted(by_case.items()):
+        if clause == 'WITNESS' and results[tid][1]:
+            continue        # the list / matrix already disagreed with the driver's mirror (reported above)
         if clause == 'WITNESS':
             raise core.MachineryError('driver logged an ill-formed event: case %r lines %r'
                                       % (cases[tid].get('cid'), idxs[:5]))
